@@ -155,21 +155,65 @@ def _run_case(e, m, n, coils, h, w, z, seed):
 
 # ------------------------------------------------------------------------------------------------------------------
 # correspondence
-def _trace_impl(e, m, hooks, h, w, z):
+def _trace_impl(e, m, hooks, h, w, z, n=1, full=False):
     def run():
         torch.manual_seed(0)
         sp = (h, w) if z is None else (z, h, w)
-        x = torch.randn((1, e.in_ch) + sp)
+        x = torch.randn((n, e.in_ch) + sp)
         nsp = len(sp)
         with Z.Recorder(hooks) as rec:
             try:
                 out = Z.run_entry(e, m, (x, None) if e.kind == "gru" else x)
             except Exception as ex:  # noqa: BLE001
-                n = err_name(ex)
-                return "err " + (n if n in ("RuntimeError", "ValueError") else "RuntimeError:" + n)
-            shapes = [list(o[-nsp:]) for _i, o in rec.calls] + [list(out.shape[-nsp:])]
+                nm = err_name(ex)
+                return "err " + (nm if nm in ("RuntimeError", "ValueError") else "RuntimeError:" + nm)
+            if full:
+                shapes = [list(o) for _i, o in rec.calls] + [list(out.shape)]
+            else:
+                shapes = [list(o[-nsp:]) for _i, o in rec.calls] + [list(out.shape[-nsp:])]
         return "ok " + " | ".join(ints(s) for s in shapes)
     return run
+
+
+def _full_spec(e, m, n):
+    """driver op + groups for the FULL-shape trace (batch, channels, spatial…) of a building-block denoiser: the spatial
+    hyper-parameters of `Z.trace_spec` plus the widths read from the instantiated layers; None: spatial trace only"""
+    from torch import nn
+
+    op, groups, hooks, _std = Z.trace_spec(e, m)
+    fam = e.name.split("/")[0]
+
+    def convs_of(mod):
+        return [c for c in mod.modules() if isinstance(c, (nn.Conv2d, nn.Conv3d))]
+
+    def has_bn(mod):
+        return int(any(isinstance(c, (nn.BatchNorm2d, nn.BatchNorm3d)) for c in mod.modules()))
+
+    if fam in ("UnetModel2d", "UnetModel3d", "NormUnetModel2d", "NormUnetModel3d"):
+        u = getattr(m, "unet2d", None) or getattr(m, "unet3d", None) or m
+        cs = convs_of(u)
+        ch = [n, cs[0].in_channels, cs[-1].out_channels, cs[0].out_channels]
+        if fam.startswith("Norm"):
+            return op + "F", [groups[0], groups[1], [m.norm_groups], ch], hooks
+        return op + "F", [groups[0], groups[1], ch], hooks
+    if fam == "MWCNN":
+        cs = convs_of(m.down[0])
+        return "mwcnnF", [groups[0], groups[1], [n, cs[0].in_channels, cs[0].out_channels, has_bn(m)]], hooks
+    if fam == "DUB":
+        return "dubF", [groups[0], groups[1], [n, m.in_channels]], hooks
+    if fam == "DIDN":
+        return "didnF", [groups[0], groups[1], [n, m.conv_in[0].in_channels, m.conv_out.out_channels, m.down.in_channels]], hooks
+    if fam == "ResNet":
+        return "resnetF", [groups[0], [n, m.conv_in.in_channels, m.conv_out[-1].out_channels, m.conv_in.out_channels,
+                                        has_bn(m.resblocks)]], hooks
+    if fam == "Conv2d":
+        cs = convs_of(m)
+        return "convnetF", [groups[0], [n, cs[0].in_channels, cs[-1].out_channels, cs[0].out_channels]], hooks
+    if fam in ("Conv2dGRU", "NormConv2dGRU"):
+        g = getattr(m, "convgru", m)
+        c0, cl = convs_of(g.conv_blocks[0])[0], convs_of(g.conv_blocks[-1])[0]
+        return "gruF", [groups[0], groups[1], [n, c0.in_channels, g.hidden_channels, cl.out_channels]], hooks
+    return None
 
 
 def _kernel_cases(ctx: Ctx):
@@ -313,14 +357,27 @@ def correspondence(ctx: Ctx):
         sizes = _size_sample(rng, e, ctx.budget(9, 40))
         small = [(h, w) for h in range(1, 7) for w in range(1, 7)]
         sizes += rng.sample(small, ctx.budget(5, 20))
+        # size classes named by the property: 1 along an axis, primes, larger than any size the repo's tests use
+        sizes += [(1, rng.choice([7, 12, 33])), (rng.choice([5, 16, 31]), 1), (rng.choice([37, 41, 43, 47]), rng.choice([29, 31, 53])),
+                  (rng.choice([64, 75, 97]), rng.choice([50, 66, 81]))]
         for h, w in sizes:
             zs = [None] if e.kind != "den3d" else [rng.choice([1, 2, 3, 5])]
+            if e.kind == "den3d" and max(h, w) > 48:
+                continue
             for z in zs:
                 dims = [h, w] if z is None else [z, h, w]
                 adm = e.admissible(h, w, z)
-                yield {"line": line(op, *groups, dims), "impl": _trace_impl(e, m, hooks, h, w, z),
-                       "nontrivial": _nontrivial(h, w, z) or not adm,
-                       "bucket": f"trace/{e.family}/" + ("adm" if adm else "below-min")}
+                n = rng.choice([1, 1, 2, 3])
+                fs = _full_spec(e, m, n)
+                if fs is not None:
+                    fop, fgroups, fhooks = fs
+                    yield {"line": line(fop, *fgroups, dims), "impl": _trace_impl(e, m, fhooks, h, w, z, n=n, full=True),
+                           "nontrivial": _nontrivial(h, w, z) or not adm,
+                           "bucket": f"fulltrace/{e.family}/" + ("adm" if adm else "below-min") + ("/batch>1" if n > 1 else "")}
+                else:
+                    yield {"line": line(op, *groups, dims), "impl": _trace_impl(e, m, hooks, h, w, z),
+                           "nontrivial": _nontrivial(h, w, z) or not adm,
+                           "bucket": f"trace/{e.family}/" + ("adm" if adm else "below-min")}
     # ---- unrolled networks: denoiser calls seen by hooks vs the block schedule READ FROM THE AST of each forward
     # (Gen.C17.sched_* is the same table; Bridge/C17.lean equates it with the hand-written Shapes.Sched)
     from translate.recipes.c17_sched import io_channels, scan_schedule
